@@ -21,6 +21,9 @@ func init() {
 	extraOps["restart"] = (*Run).opRestart
 }
 
+// AttackerVerifier: the verifier behind the code_challenge an attacker adds to an authorization request that uses a request_uri.
+const AttackerVerifier = "attacker-verifier-0123456789abcdefghijklmnopqrstuvw"
+
 const grantDevice = "urn:ietf:params:oauth:grant-type:device_code"
 const grantJWTBearer = "urn:ietf:params:oauth:grant-type:jwt-bearer"
 
@@ -516,6 +519,9 @@ func (r *Run) opAuthorizePAR(st Step) {
 	conflicts := []string{}
 	for _, k := range []string{"scope", "state", "response_type", "response_mode", "audience", "nonce", "code_challenge", "code_challenge_method", "prompt"} {
 		if v := st.p("x_" + k); v != "" {
+			if v == "EMPTY" {
+				v = "" // the parameter is present with an empty value
+			}
 			q.Set(k, v)
 			conflicts = append(conflicts, k)
 		}
